@@ -2013,6 +2013,7 @@ public:
                 {
                     syntax_error(ps);
                     enter_recovery_mode(ps);
+                    continue;
                 }
                 if (!pop_stacks(ps))
                     break;
